@@ -387,6 +387,10 @@ impl Prop for C06 {
                 steps.push(WStep::Clear);
             } else {
                 let w = if faulty { [30, 10, 10, 20, 8, 6, 6, 5, 5] } else { [30, 15, 15, 30, 10, 0, 0, 0, 0] };
+                if rng.chance(1, 8) {
+                    steps.push(WStep::Wr(WrOp::Accept(usize::MAX - rng.range(2, 5) as usize)));
+                    continue;
+                }
                 steps.push(WStep::Wr(match rng.weighted(&w) {
                     0 => WrOp::Accept(usize::MAX),
                     1 => WrOp::Accept(1),
@@ -506,7 +510,32 @@ impl Prop for C06 {
                     let op_eff = op.clone();
                     let writes0 = conn.sh.borrow().write_calls;
                     let res = if let WrOp::Accept(n) = op_eff {
-                        if n == usize::MAX - 1 {
+                        if n <= usize::MAX - 2 && n >= usize::MAX - 5 {
+                            // aimed cuts at the structure of the response being written: exactly the head
+                            // (status line + header lines + blank line), one byte less / more, or the
+                            // status line only - where "this response is complete" and "short write"
+                            // decisions are most likely to be confused
+                            let cur_end = queued_resps.iter().find(|&&e| e > sent_before).cloned().unwrap_or(sent_before);
+                            let cur_start = queued_resps.iter().rev().find(|&&e| e <= sent_before).cloned().unwrap_or(0);
+                            let cur = &expected[cur_start.min(expected.len())..cur_end.min(expected.len())];
+                            let head_end = cur.windows(4).position(|w| w == b"\r\n\r\n").map(|p| p + 4).unwrap_or(cur.len());
+                            let line_end = cur.windows(2).position(|w| w == b"\r\n").map(|p| p + 2).unwrap_or(cur.len());
+                            let target = cur_start
+                                + match usize::MAX - n {
+                                    2 => head_end,
+                                    3 => head_end.saturating_sub(1),
+                                    4 => head_end + 1,
+                                    _ => line_end,
+                                };
+                            let k = if target > sent_before { target - sent_before } else { 1 };
+                            if target > sent_before && target < cur_end {
+                                st.probe("write_cut_aimed_at_head");
+                            }
+                            if target == cur_end && target > sent_before {
+                                st.probe("write_accepts_exactly_head_of_bodyless_response");
+                            }
+                            conn.try_write(WrOp::Accept(k))
+                        } else if n == usize::MAX - 1 {
                             conn.sh.borrow_mut().next_wr = None;
                             // emulate via a two-phase: peek the offer size is impossible; use the model:
                             // the library offers at most the rest of the current response
